@@ -9,7 +9,9 @@ import (
 	"strings"
 	"testing"
 
+	"github.com/antlr4-go/antlr/v4"
 	"github.com/specterops/dawgs/cypher/models/cypher"
+	"github.com/specterops/dawgs/cypher/parser"
 	"github.com/specterops/dawgs/query"
 	"pgregory.net/rapid"
 
@@ -187,6 +189,7 @@ func accepted(text string) bool {
 }
 
 func genCaseMutate(t *rapid.T) Case {
+	oddTextParsed()
 	qs := corpus.Queries()
 	base := qs[rapid.IntRange(0, len(qs)-1).Draw(t, "q")]
 	text := mutate(t, base)
@@ -270,7 +273,31 @@ func bindIdentifiers(text string) string {
 	return corpus.Join(toks)
 }
 
+// resetParserCache drops the adaptive-prediction DFAs of DAWGS's generated parser. They live in package-level
+// static data, are shared by every parser instance and only grow: the odd texts of grammar derivations (and token
+// mutations) add states that no later text reuses, a few megabytes per text – several gigabytes per process over a
+// run, times the shards of the thorough tier. The DFAs are a cache; the slice the interpreter hands out is the
+// static one, so replacing its elements resets it. Only called between cases (the tests of this package are
+// sequential).
+func resetParserCache() {
+	p := parser.NewCypherParser(antlr.NewCommonTokenStream(parser.NewCypherLexer(antlr.NewInputStream("")), antlr.TokenDefaultChannel))
+	atn, dfas := p.GetATN(), p.GetInterpreter().DecisionToDFA()
+	for i := range dfas {
+		dfas[i] = antlr.NewDFA(atn.DecisionToState[i], i)
+	}
+}
+
+var oddTexts int
+
+// oddTextParsed counts the texts that are likely to leave unique DFA states behind and resets the cache now and then.
+func oddTextParsed() {
+	if oddTexts++; oddTexts%400 == 0 {
+		resetParserCache()
+	}
+}
+
 func genCaseG4(t *rapid.T) Case {
+	oddTextParsed()
 	if grammar == nil {
 		g, err := g4.Load()
 		if err != nil {
